@@ -134,7 +134,7 @@ def run_kaldi(cfg):
         float32 = 'f32'
         random = types.SimpleNamespace(seed=lambda s: rng.seed(s))
 
-    ns.update(np=NPx, len=slen, logging=types.SimpleNamespace(getLogger=lambda n: Log(), StreamHandler=lambda: None))
+    ns.update(np=NPx, len=slen, int=symex.sint, logging=types.SimpleNamespace(getLogger=lambda n: Log(), StreamHandler=lambda: None))
     ns['_compute_feats_from_kaldi_tables_parse_args'] = parse
     ns['alias_factory_subclass_from_arg'] = factory
     fn = ns['compute_feats_from_kaldi_tables']
@@ -168,6 +168,9 @@ def run_kaldi(cfg):
         utts = []
         for u in range(nutt):
             utts.append(('utt%d' % u, (Buf(z3.Const('buf%d' % u, A)), FmtReal(z3.Real('sf%d' % u)), FmtReal(z3.Real('dur%d' % u)))))
+            # Kaldi's wave reader: duration = samples / sampling rate (sampling rates are positive integers)
+            c.assume(z3.Real('sf%d' % u) == z3.ToReal(z3.Int('sfi%d' % u)), z3.Int('sfi%d' % u) >= 1, z3.Int('sfi%d' % u) <= 48000,
+                     z3.Real('dur%d' % u) * z3.Real('sf%d' % u) == z3.ToReal(z3.Int('nsamples')))
         state['utts'] = utts
         try:
             rc, written = one_run(1)
@@ -224,6 +227,7 @@ def run_kaldi(cfg):
         for u in range(nutt):
             w['mismatch%d' % u] = not z3.is_true(m.eval(z3.Real('sf%d' % u) == z3.Real('rate'), True))
             w['short%d' % u] = z3.is_true(m.eval(z3.Real('dur%d' % u) < z3.Real('mind'), True))
+            w['at_min%d' % u] = z3.is_true(m.eval(z3.Real('dur%d' % u) == z3.Real('mind'), True))     # duration exactly the minimum
         w['class'] = 'kaldi/%s/%s' % (res[0], (res[1] if res[0] == 'exception' else '').split(':')[0])
         viol.append(w)
     samples.append({'config': cfg['name'], 'pipeline_term': 'f32(post_j(...compute_full(pre_i(...f64(chan(buf, c))...))))'})
@@ -536,8 +540,9 @@ def _real_setup(work):
     import numpy as np
     os.makedirs(work, exist_ok=True)
     conf = {'name': 'stft', 'bank': {'name': 'fbank', 'num_filts': 5, 'sampling_rate': 8000}, 'frame_length_ms': 10, 'frame_shift_ms': 5, 'include_energy': True}
-    pre = [{'name': 'preemph', 'coeff': 0.9}]
-    post = [{'name': 'deltas', 'num_deltas': 1}]
+    # two DIFFERENT elements each, so that order and identity of the list elements matter
+    pre = [{'name': 'preemph', 'coeff': 0.9}, {'name': 'preemph', 'coeff': -0.6}]
+    post = [{'name': 'deltas', 'num_deltas': 1}, {'name': 'stack', 'num_vectors': 2}]
     return conf, pre, post
 
 
@@ -557,15 +562,17 @@ def replay(w):
     work = tempfile.mkdtemp(prefix='c09-', dir='/verif/.work' if os.path.isdir('/verif/.work') else None)
     try:
         conf, pre, post = _real_setup(work)
-        randomised = 'deterministic' in w.get('what', '') or (w.get('seed_given') and w.get('npre', 0) > 0)
+        randomised = 'deterministic' in w.get('what', '')
         if randomised:
-            pre = [{'name': 'dither', 'coeff': 1.0}]
+            pre = [{'name': 'dither', 'coeff': 1.0}, {'name': 'preemph', 'coeff': 0.9}]
         seed = int(w.get('seed', 3)) if w.get('seed_given', True) else 3
-        pre = pre[: max(0, min(1, w.get('npre', 1)))]
-        post = post[: max(0, min(1, w.get('npost', 1)))]
+        pre = pre[: max(0, min(2, w.get('npre', 1)))]
+        post = post[: max(0, min(2, w.get('npost', 1)))]
         rng = np.random.RandomState(2)
         nchan = max(1, w.get('nchan', 1))
-        sigs = {'utt%d' % u: (rng.randn(nchan, 1200) * 1000).astype(np.float64) for u in range(max(1, w.get('nutt', 1)))}
+        at_min = any(w.get('at_min%d' % u) for u in range(max(1, w.get('nutt', 1))))
+        nsamp = 2000 if at_min else 1200        # 2000 samples at 8 kHz = 0.25 s exactly (also in single precision)
+        sigs = {'utt%d' % u: (rng.randn(nchan, nsamp) * 1000).astype(np.float64) for u in range(max(1, w.get('nutt', 1)))}
 
         def pipeline(x, with_comp=True):
             for p in pre:
@@ -598,6 +605,8 @@ def replay(w):
             args = ['scp:' + wavs, 'ark:' + feats, json.dumps(conf), '--preprocess', json.dumps(pre), '--postprocess', json.dumps(post), '--seed', str(seed)]
             if chan != -1 or nchan > 1:
                 args += ['--channel', str(max(chan, 0))]
+            if at_min:
+                args += ['--min-duration', '0.25']      # every utterance lasts exactly the minimum: none may be dropped
             with warnings.catch_warnings():
                 warnings.simplefilter('ignore')
                 try:
